@@ -1225,6 +1225,11 @@ func extractLiteralASN(s string) (uint16, string, bool) {
 	if err != nil || !isCanonicalDecimal(lit) {
 		return 0, "", false
 	}
+	// A repetition operator right after the colon applies to the colon, which
+	// is then optional or repeated and no longer delimits the AS.
+	if rest != "" && strings.IndexByte("*+?{", rest[0]) >= 0 {
+		return 0, "", false
+	}
 	return uint16(asn), rest, true
 }
 
